@@ -176,7 +176,7 @@ func mutations(valid map[string]any, pairwise bool) []mutant {
 		b.WriteByte('{')
 		first := true
 		for _, k := range keys {
-			if k == drop {
+			if k == drop || over[k] == "\x00" {
 				continue
 			}
 			if !first {
@@ -207,6 +207,18 @@ func mutations(valid map[string]any, pairwise bool) []mutant {
 		switch {
 		case lk == "k" || lk == "top_k":
 			out = append(out, mutant{k + "=maxK+1", render(map[string]string{k: "10001"}, ""), "limitk"})
+			// the limit holds on every path through the handler: without a query vector (filter-only
+			// search), with an empty one, with a text to embed instead
+			for _, other := range keys {
+				lo := strings.ToLower(other)
+				if lo == "query_vector" || lo == "vector" || lo == "query" {
+					out = append(out, mutant{k + "=maxK+1,drop:" + other, render(map[string]string{k: "10001"}, other), "limitk"})
+					out = append(out, mutant{k + "=maxK+1," + other + "=[]", render(map[string]string{k: "10001", other: "[]"}, ""), "limitk"})
+				}
+			}
+			out = append(out, mutant{k + "=huge", render(map[string]string{k: "4611686018427387904"}, ""), "limitk"})
+			// neither a vector nor a text to embed: what is left is the filter
+			out = append(out, mutant{k + "=maxK+1,no-query", render(map[string]string{k: "10001", "query_vector": "\x00", "query_text": "\x00", "vector": "\x00", "query": "\x00"}, ""), "limitk"})
 		case lk == "vector": // the published dimension limit is "per add"
 			var b strings.Builder
 			b.WriteByte('[')
